@@ -288,6 +288,20 @@ Section CommitParent.
                          children (Ok (fst r)) in
     let? s := spill_root ps fill fuel t2 in
     Ok (fst s, snd r ++ snd s).
+
+  (** ... preceded by the decision its own parent takes for it (a bucket that holds a nested bucket is never inlineable:
+      inl_loop refuses bucket entries) *)
+  Definition commit_parent_bucket (fuel : nat) (t : nt) (order : list N) (children : list (bytes * bytes)) : res (nt * list ev * bool) :=
+    (* nothing of this bucket was touched and no child is written back: the bucket is not written *)
+    if negb (h_mat (hd_of t)) && match children with [] => true | _ => false end then Ok (t, [], h_pgid (hd_of t) =? 0) else
+    let? r := rebalance_all ps fill fuel t order in
+    let? t2 := fold_left (fun (a : res nt) kv => let? a' := a in put_at_key fuel a' (fst kv) (snd kv) bucket_leaf_flag)
+                         children (Ok (fst r)) in
+    if inlineable ps t2 then
+      Ok (NT {| h_mat := false; h_unbal := false; h_pgid := 0; h_ov := 0; h_key := []; h_leaf := true |} (ins_of t2) [],
+          snd r ++ (if h_pgid (hd_of t2) =? 0 then [] else free_all fuel t2), true)
+    else
+      let? s := spill_root ps fill fuel t2 in Ok (fst s, snd r ++ snd s, false).
 End CommitParent.
 
 (** ---- what a tree means ---- *)
